@@ -531,6 +531,15 @@ ocp.set_der(v, a)
             # However, different entries of v have different widths of coefficients
             # Hence, we will have to add separate constraints for each width
 
+            # A row is bounded through the coefficients of one width only;
+            # a row that combines widths (e.g. a state and its derivative) has no coefficient-wise bound
+            row_hits = np.zeros(A.shape[0])
+            for w in self.unique_widths:
+                Sw = np.nonzero(self.widths==w)[0]
+                row_hits[ca.sum2(A[:,Sw].sparsity()).row()] += 1
+            if np.any(row_hits>1):
+                raise Exception("SplineMethod cannot handle a grid='inf' constraint that combines signals of different spline degree (e.g. a state and its derivative).")
+
             # Partition constraints into blocks per width
             for w in self.unique_widths:
                 # Selector for specific width
